@@ -21,6 +21,11 @@ PROP = [  # (keyword in commit subject, property, signature of the finding it re
  ("slide-image placeholder", "C13", "add_slide-raises-Key:sldImg"), ("header or slide-image placeholder", "C13", "geometry-raises-Key:hdr"),
  ("empty category label read back", "C07", "empty-category-label-reads-None"),
  ("reading Shape.text", "C12", "accessor:Shape.text"), ("reading _Cell.text", "C12", "accessor:_Cell.text"), ("reading DataLabels.show_", "C12", "accessor:DataLabels.show_*"),
+ ("very large rotations", "C11", "rt:ST_Angle"),
+ ("relationship targets were cached", "C02", "stale-target-after-rename (also C12 deck:renamed-slides-relationships)"),
+ ("file name containing a double quote", "C05", "sink:new_pic/desc"), ("insert_picture spliced", "C05", "sink:new_ph_pic/name,desc"),
+ ("add_movie spliced", "C05", "sink:new_video_pic/shape_name"), ("graphic-frame name was spliced", "C05", "sink:new_graphicFrame/name"),
+ ("add_ole_object spliced", "C05", "sink:new_ole_object_graphicFrame/progId,name"), ("chart number formats were spliced", "C05", "sink:xmlwriter/number_format (8 sites); C07 number-format-quote-breaks-date-axis"),
  ("EMF images", "C15", "emf-stored-as-wmf"), ("TIFF without resolution", "C15", "tiff-without-resolution-sized-at-1dpi"),
 ]
 k = json.load(open(os.path.join(V, "known_findings.json")))
